@@ -86,8 +86,9 @@ ASMJIT_FAVOR_SIZE Error init_func_detail(FuncDetail& func, const FuncSignature& 
   // specifies 8 bytes, so each function argument would occupy at least 8 bytes even if it needs less.
   // However, Apple has decided to not follow this rule and function argument can occupy less, for
   // example two consecutive 32-bit arguments would occupy 8 bytes total, instead of 16 as specified
-  // by ARM.
-  uint32_t min_stack_arg_size = cc.strategy() == CallConvStrategy::kAArch64Apple ? 4u : 8u;
+  // by ARM. On Apple platforms each stack argument consumes only its natural size and is aligned to
+  // its natural alignment (an 8-bit integer occupies a single byte).
+  uint32_t min_stack_arg_size = cc.strategy() == CallConvStrategy::kAArch64Apple ? 1u : 8u;
 
   if (func.has_ret()) {
     for (uint32_t value_index = 0; value_index < Globals::kMaxValuePack; value_index++) {
@@ -156,9 +157,7 @@ ASMJIT_FAVOR_SIZE Error init_func_detail(FuncDetail& func, const FuncSignature& 
           }
           else {
             uint32_t size = Support::max<uint32_t>(TypeUtils::size_of(type_id), min_stack_arg_size);
-            if (size >= 8) {
-              stack_offset = Support::align_up(stack_offset, 8);
-            }
+            stack_offset = Support::align_up(stack_offset, size);
             arg.assign_stack_offset(int32_t(stack_offset));
             stack_offset += size;
           }
@@ -185,10 +184,8 @@ ASMJIT_FAVOR_SIZE Error init_func_detail(FuncDetail& func, const FuncSignature& 
           }
           else {
             uint32_t size = Support::max<uint32_t>(TypeUtils::size_of(type_id), min_stack_arg_size);
-            if (size >= 8) {
-              // Stack arguments are aligned to 8 bytes or to their natural alignment if greater (16-byte vectors).
-              stack_offset = Support::align_up(stack_offset, Support::min<uint32_t>(size, 16u));
-            }
+            // Stack arguments are aligned to 8 bytes or to their natural alignment if greater (16-byte vectors).
+            stack_offset = Support::align_up(stack_offset, Support::min<uint32_t>(size, 16u));
             arg.assign_stack_offset(int32_t(stack_offset));
             stack_offset += size;
           }
